@@ -31,6 +31,10 @@ import (
 
 //go:norace
 func (c *Conn) newToWriteBuf(buf []byte) {
+	// an empty buffer behind a queued file would be an entry flush can never finish.
+	if len(buf) == 0 {
+		return
+	}
 	c.left += len(buf)
 
 	allocator := c.p.g.BodyAllocator
